@@ -422,8 +422,13 @@ class FieldHandler:
 
 
     def handled_elsewhere(self, field: Field) -> None:
-        # Some fields are handled by extract_fields below.
-        pass
+        # Some fields are handled by extract_fields below,
+        # when they are part of the docstring of a class or of a module.
+        if not isinstance(self.obj, (model.Class, model.Module)):
+            # Anywhere else there is no variable the field could document:
+            # report it and show it, rather than dropping its text silently.
+            field.report(f"Field '{field.tag}' is only meaningful in the docstring of a class or a module")
+            self.unknowns[field.tag].append(FieldDesc(name=field.arg, body=field.format()))
 
     handle_ivar = handled_elsewhere
     handle_cvar = handled_elsewhere
